@@ -15,7 +15,7 @@ from vlib import model, workspace
 from vlib.harness import hyp_settings, Violation, quiet
 
 PROPERTY = "C14"
-RULE = ("a pool of 14 deliberately dissimilar (country|world, scenario) items (both nutrition profiles, populations 3e5..1.4e9, horizons 48 "
+RULE = ("a pool of 17 deliberately dissimilar (country|world, scenario) items (both nutrition profiles, populations 3e5..1.4e9, horizons 48 "
         "and 120, with/without resilient foods, different waste, country and world scale); the digest (SHA-256 over the headline, every "
         "monthly series of the result, the meat and herd trajectories, raw float64 bytes) of each item computed ALONE in a freshly spawned "
         "interpreter is the reference; a rule-based state machine then runs histories of 2..6 steps in one process - run item i, run the "
@@ -45,6 +45,10 @@ POOL = [
                  shutoff="short_delayed_shutoff")),
     ("JPN", dict(B, scenario="greenhouse", shutoff="one_month_delayed_shutoff", NMONTHS=60, **NW)),
     ("ETH", dict(B, MINIMUM_PERCENT_FED_BEFORE_NONHUMAN_CONSUMPTION_ALLOWED=50.0, CROP_PRODUCTION_MULTIPLIER=0.5, NMONTHS=48)),
+    # numeric overrides on countries that also appear without them (an override must not outlive its run)
+    ("USA", dict(B, meat_cattle_head=20000000, kg_meat_per_large_animal=150.0, NMONTHS=48)),
+    ("ARG", dict(B, chicken_head=500000000, pig_head=100000, NMONTHS=48)),
+    ("ARG", dict(B, NMONTHS=48)),
 ]
 REFS = None
 
